@@ -61,15 +61,25 @@ impl K {
 /// None = holds; Some(what) = the property fails on `x`
 fn check_one(k: K, x: &[u8]) -> Option<String> {
     let f = k.filter();
-    let encoded = real(|| enc::encode(x, &f));
-    let enc_bytes = match encoded.strip_prefix("ok ") {
-        Some(h) => crate::driver::unhex(h).unwrap(),
-        None => return Some(format!("encode returned {}", encoded)),
+    // fast path without formatting: everything as expected
+    let fast = std::panic::catch_unwind(std::panic::AssertUnwindSafe(|| {
+        match enc::encode(x, &f) {
+            Ok(e) => match enc::decode(&e, &f) { Ok(d) if d == x => Some(e), _ => None },
+            Err(_) => None,
+        }
+    }));
+    let enc_bytes = match fast {
+        Ok(Some(e)) => e,
+        _ => {
+            let encoded = real(|| enc::encode(x, &f));
+            let enc_bytes = match encoded.strip_prefix("ok ") {
+                Some(h) => crate::driver::unhex(h).unwrap(),
+                None => return Some(format!("encode returned {}", encoded)),
+            };
+            let back = real(|| enc::decode(&enc_bytes, &f));
+            return Some(format!("decode(encode(x)) = {} for x = {} (encoded: {})", trunc(&back), trunc(&hex(x)), trunc(&hex(&enc_bytes))));
+        }
     };
-    let back = real(|| enc::decode(&enc_bytes, &f));
-    if back != format!("ok {}", hex(x)) {
-        return Some(format!("decode(encode(x)) = {} for x = {} (encoded: {})", trunc(&back), trunc(&hex(x)), trunc(&hex(&enc_bytes))));
-    }
     match k.reference_decode(&enc_bytes) {
         Some(v) if v == x => {}
         other => return Some(format!("the reference {} decoder reads the encoder's output {} as {} (x = {})", k.name(), trunc(&hex(&enc_bytes)),
@@ -89,56 +99,109 @@ fn check_one(k: K, x: &[u8]) -> Option<String> {
     None
 }
 
+/// all byte strings of length 0, 1, 2, 3 in one index space
+fn index_to_bytes(i: u64) -> Vec<u8> {
+    if i == 0 { vec![] }
+    else if i <= 256 { vec![(i - 1) as u8] }
+    else if i <= 256 + 65536 { let j = i - 257; vec![(j >> 8) as u8, j as u8] }
+    else { let j = i - 257 - 65536; vec![(j >> 16) as u8, (j >> 8) as u8, j as u8] }
+}
+const UPTO2: u64 = 1 + 256 + 65536;
+const UPTO3: u64 = UPTO2 + 16777216;
+
+/// check `gen(i)` for i in 0..n on all cores; returns the number of cases and the first failures
+fn par_run(k: K, n: u64, gen: &(dyn Fn(u64) -> Vec<u8> + Sync), group: &str, seed: u64, or: &mut Oracle) {
+    let t0 = std::time::Instant::now();
+    let threads = std::thread::available_parallelism().map(|n| n.get()).unwrap_or(4).min(16) as u64;
+    let fails: Vec<Vec<(Vec<u8>, String)>> = std::thread::scope(|sc| {
+        let hs: Vec<_> = (0..threads).map(|t| sc.spawn(move || {
+            let mut local = vec![];
+            let mut i = t;
+            while i < n {
+                let x = gen(i);
+                if let Some(what) = check_one(k, &x) {
+                    if local.len() < 3 { local.push((x, what)); }
+                }
+                i += threads;
+            }
+            local
+        })).collect();
+        hs.into_iter().map(|h| h.join().expect("worker")).collect()
+    });
+    or.cases += n;
+    or.histogram.insert(format!("ms {} {}", k.name(), group), (t0.elapsed().as_secs_f64() * 1000.0) as u64);
+    let mut shown = 0;
+    for (x, what) in fails.into_iter().flatten() {
+        if shown < 3 {
+            or.fail(&format!("roundtrip:{}", k.name()), &what, json!({"stream": "c16.roundtrip", "seed": seed, "filter": k.name(), "group": group, "x_hex": hex(&x)}));
+            shown += 1;
+        }
+    }
+}
+
 fn roundtrip_oracle(seed: u64, thorough: bool, only: Option<(K, Vec<u8>)>) -> Oracle {
     let mut or = Oracle::new("c16.roundtrip");
-    let mut run = |k: K, x: &[u8], group: &str, or: &mut Oracle, nfail: &mut [u64; 4]| {
-        or.cases += 1;
-        if let Some(what) = check_one(k, x) {
-            let idx = k as usize;
-            nfail[idx] += 1;
-            if nfail[idx] <= 3 {
-                or.fail(&format!("roundtrip:{}", k.name()), &what, json!({"stream": "c16.roundtrip", "seed": seed, "filter": k.name(), "group": group, "x_hex": hex(x)}));
-            }
-        }
-    };
-    let mut nfail = [0u64; 4];
     if let Some((k, x)) = only {
-        run(k, &x, "replay", &mut or, &mut nfail);
+        or.cases += 1;
+        if let Some(what) = check_one(k, &x) {
+            or.fail(&format!("roundtrip:{}", k.name()), &what, json!({"stream": "c16.roundtrip", "seed": seed, "filter": k.name(), "group": "replay", "x_hex": hex(&x)}));
+        }
         return or;
     }
     let all = [K::Hex, K::A85, K::Lzw, K::Flate];
-    // exhaustive short inputs
-    let mut buf = vec![];
     for k in all {
-        run(k, &[], "len0", &mut or, &mut nfail);
-        for a in 0..=255u8 { run(k, &[a], "len1", &mut or, &mut nfail); }
-        for a in 0..=255u8 { for b in 0..=255u8 { buf.clear(); buf.extend_from_slice(&[a, b]); run(k, &buf, "len2", &mut or, &mut nfail); } }
-        or.count(&format!("{}: all inputs of length 0..2 = 65793", k.name()));
+        // exhaustive short inputs: up to length 3 for the two ASCII encoders, up to length 2 (+ a sample of
+        // length 3) for the compressors in the quick tier, everything up to length 3 in the thorough tier
         let full3 = thorough || matches!(k, K::Hex | K::A85);
         if full3 {
-            for a in 0..=255u8 { for b in 0..=255u8 { for c in 0..=255u8 { buf.clear(); buf.extend_from_slice(&[a, b, c]); run(k, &buf, "len3", &mut or, &mut nfail); } } }
-            or.count(&format!("{}: all inputs of length 3 = 16777216", k.name()));
+            par_run(k, UPTO3, &index_to_bytes, "len0-3", seed, &mut or);
+            or.count(&format!("{}: all inputs of length 0..3 = {}", k.name(), UPTO3));
+        } else if k == K::Lzw {
+            // weezl sets up its tables on every call (~0.5 ms): the quick tier samples lengths 2 and 3
+            par_run(k, 257, &index_to_bytes, "len0-1", seed, &mut or);
+            let gen2 = move |i: u64| { let mut rng = Rng::derive(seed, "c16.lzw.short", i); let n = 2 + (i % 2) as usize; rng.bytes(n) };
+            par_run(k, 12_000, &gen2, "len2-3-sample", seed, &mut or);
+            or.count("lzw: all inputs of length 0..1 = 257, 12000 sampled inputs of length 2 and 3 (all of them in the thorough tier)");
         } else {
-            let mut rng = Rng::derive(seed, "c16.len3", k as u64);
-            for _ in 0..60_000 { let x = rng.bytes(3); run(k, &x, "len3", &mut or, &mut nfail); }
-            or.count(&format!("{}: 60000 sampled inputs of length 3 (all of them in the thorough tier)", k.name()));
+            par_run(k, UPTO2, &index_to_bytes, "len0-2", seed, &mut or);
+            or.count(&format!("{}: all inputs of length 0..2 = {}", k.name(), UPTO2));
+            let gen3 = move |i: u64| { let mut rng = Rng::derive(seed, "c16.len3", i * 4 + k as u64); rng.bytes(3) };
+            par_run(k, 100_000, &gen3, "len3-sample", seed, &mut or);
+            or.count(&format!("{}: 100000 sampled inputs of length 3 (all of them in the thorough tier)", k.name()));
         }
-        // all single-value runs up to 1024 (every value for a few lengths, every length for a few values)
-        for len in 1..=1024usize {
-            for &v in &[0u8, 1, 0x20, 0x7e, 0xff] { run(k, &vec![v; len], "run", &mut or, &mut nfail); }
-        }
-        for v in 0..=255u8 { for &len in &[4usize, 5, 127, 128, 129, 1024] { run(k, &vec![v; len], "run", &mut or, &mut nfail); } }
-        or.count(&format!("{}: single-value runs = 6656", k.name()));
+        // single-value runs up to 1024: every length for five values, every value for six lengths
+        let runs = |i: u64| -> Vec<u8> {
+            if i < 5 * 1024 { vec![[0u8, 1, 0x20, 0x7e, 0xff][(i / 1024) as usize]; (i % 1024) as usize + 1] }
+            else { let j = i - 5 * 1024; vec![(j / 6) as u8; [4usize, 5, 127, 128, 129, 1024][(j % 6) as usize]] }
+        };
+        let nruns = if k == K::Lzw && !thorough { 2 * 1024 } else { 5 * 1024 + 256 * 6 };
+        par_run(k, nruns, &runs, "run", seed, &mut or);
+        or.count(&format!("{}: single-value runs = {}", k.name(), nruns));
         // random and structured data up to 64 KiB
-        let n = if thorough { 20_000 } else { 1_500 };
-        for case in 0..n {
-            let mut rng = Rng::derive(seed, "c16.random", case * 4 + k as u64);
-            let max = if case % 25 == 0 { 65536 } else { 2000 };
-            let x = payload(&mut rng, max);
-            run(k, &x, "random", &mut or, &mut nfail);
-        }
-        or.count(&format!("{}: random/structured = {}", k.name(), n));
+        let n = if thorough { 40_000 } else { 2_000 };
+        let rnd = move |case: u64| { let mut rng = Rng::derive(seed, "c16.random", case * 4 + k as u64); let max = if case % 25 == 0 { 65536 } else { 2000 }; payload(&mut rng, max) };
+        par_run(k, n, &rnd, "random", seed, &mut or);
+        or.count(&format!("{}: random/structured up to 64 KiB = {}", k.name(), n));
     }
+    // a requested predictor: the encoder has to refuse it or to produce something its decoder inverts
+    for case in 0..2000u64 {
+        let mut rng = Rng::derive(seed, "c16.predictor", case);
+        let x = payload(&mut rng, 200);
+        let mut p = lzw_params(if rng.chance(1, 2) { 0 } else { 1 });
+        p.predictor = *rng.pick(&[2, 10, 11, 12, 13, 14, 15]);
+        p.columns = 1 + rng.below(8) as i32;
+        p.n_components = 1 + rng.below(3) as i32;
+        let f = if rng.chance(1, 2) { StreamFilter::FlateDecode(p.clone()) } else { StreamFilter::LZWDecode(p.clone()) };
+        or.cases += 1;
+        if let Ok(e) = enc::encode(&x, &f) {
+            let back = real(|| enc::decode(&e, &f));
+            if back != format!("ok {}", hex(&x)) {
+                or.fail("roundtrip:predictor", &format!("encode accepted {:?} but decode(encode(x)) = {} for x = {}", f, trunc(&back), trunc(&hex(&x))),
+                    json!({"stream": "c16.roundtrip", "seed": seed, "filter": format!("{:?}", f), "group": "predictor", "x_hex": hex(&x)}));
+            }
+        }
+    }
+    or.count("predictor requests = 2000");
     or.distinct_nontrivial = or.cases;
     or
 }
@@ -197,14 +260,16 @@ fn dispatch_stream(driver: &Driver, seed: u64, n: u64) -> Stream {
         let mut rng = Rng::derive(seed, "c16.dispatch", case);
         let x = payload(&mut rng, 60);
         let early = *rng.pick(&[0, 0, 1, 2, -1]);
+        let pred = *rng.pick(&[1, 1, 1, 0, 2, 10, 12, 15, -3]);
+        let with_pred = |mut p: LZWFlateParams| { p.predictor = pred; p.columns = 3; p };
         let (proto, f): (String, StreamFilter) = match rng.below(8) {
             0 => ("hex".into(), StreamFilter::ASCIIHexDecode),
             1 => ("a85".into(), StreamFilter::ASCII85Decode),
             2 => ("rl".into(), StreamFilter::RunLengthDecode),
             3 => ("jpx".into(), StreamFilter::JPXDecode),
             4 => ("crypt".into(), StreamFilter::Crypt),
-            5 => ("fl:1:1:8:1:1".into(), StreamFilter::FlateDecode(lzw_params(1))),
-            _ => (format!("lzw:1:1:8:1:{}", early), StreamFilter::LZWDecode(lzw_params(early))),
+            5 => (format!("fl:{}:1:8:3:1", pred), StreamFilter::FlateDecode(with_pred(lzw_params(1)))),
+            _ => (format!("lzw:{}:1:8:3:{}", pred, early), StreamFilter::LZWDecode(with_pred(lzw_params(early)))),
         };
         st.count(&format!("filter={}", proto.split(':').next().unwrap()));
         let imp = real(|| enc::encode(&x, &f));
